@@ -31,7 +31,7 @@ XS = ['1', '2', '4', '-1']
 A = [1, 2, 3]
 C = [2, -1, 3]
 START = ['1/2', '-2', '3']
-DICTV = ['5/2', '-1/2', '4']
+DICTV = ['0', '-1/2', '4']     # a dictionary may give the value 0 to a parameter whose starting value is not 0
 
 
 def bound(lo, hi):
